@@ -530,6 +530,16 @@ func (m *c20Monitor) AfterBeginBlock(r *Run, ctx sdk.Context) {
 					m.fail(r, "epoch-end-statistics-reflect-accepted-results", "signers-without-results", fmt.Sprintf("task %s lists signers %v but no result was accepted", tkey, t.SignedOperators))
 					return
 				}
+				// no result was accepted: every operator opted in at creation is a non-signer
+				if len(t.OptInOperators) > 0 {
+					want := append([]string{}, t.OptInOperators...)
+					sort.Strings(want)
+					got := append([]string{}, t.NoSignedOperators...)
+					sort.Strings(got)
+					if !equalStrings(got, want) {
+						r.violateKeepGoing(m.Name(), "epoch-end-statistics-reflect-accepted-results", "task-without-results-not-evaluated", fmt.Sprintf("task %s reached the end of its statistical period (epoch %d of %q) without any accepted result: non-signers %v, expected all opted-in operators %v", tkey, e.n, e.id, t.NoSignedOperators, t.OptInOperators))
+					}
+				}
 				continue
 			}
 			groups++
@@ -624,8 +634,8 @@ func c20Plan(p *PRNG, cfg Config, tier string) Plan {
 func init() {
 	Register(&PropSpec{
 		ID: "C20", Level: "exploration",
-		Rule: "random interleavings of registerAVS/updateAVS/deregisterAVS (three AVS identities, own and foreign task addresses, existing and unknown epoch identifiers and assets, caller in / not in the owner list), registerBLSPublicKey (valid, foreign signature, malformed hash / key), operator opt-in/out through the AVS precompile and through operator messages (registered and unregistered operators, minimum self-delegation 0..1e6 USD), createTask with response / statistical / challenge periods 0-2 epochs, phase-one and phase-two MsgSubmitTaskResult from every operator (right and wrong stage, task id, signature key, payload, signer, address case) and challenges, while block times end the AVS epoch every 1-4 blocks (including exactly on a boundary and several epochs at once) and stake moves; every accepted operation is judged against the statement's conditions evaluated on the state before it (epoch windows from the stored task parameters and the epochs keeper, BLS verification recomputed, self-delegated value recomputed from the ledger with exact rationals), a refused submission must leave the record unchanged, task ids must be exactly 1..n after the n-th accepted creation, and in every BeginBlock that ends an epoch the statistics of each task whose statistical period ends there are compared with the monitor's own record of accepted results (signers, non-signers = opted-in at creation minus signers, per-signer power, total power, threshold determined by the task's own totals); non-trivial = >= 1 accepted phase-two result and >= 1 task statistics checked",
-		Assumptions: []string{"AVS and task 'contracts' are externally owned accounts calling the precompile (the precompile only sees contract.CallerAddress)", "a task without any accepted result is not required to list non-signers (the statistics are defined over grouped results)", "ActualThreshold is only checked to be the value determined by the task's own recorded totals, not against an independent definition of 'threshold'", "a challenge call that reports success without storing a record is counted (probe) but not judged"},
+		Rule: "random interleavings of registerAVS/updateAVS/deregisterAVS (three AVS identities, own and foreign task addresses, existing and unknown epoch identifiers and assets, caller in / not in the owner list), registerBLSPublicKey (valid, foreign signature, malformed hash / key), operator opt-in/out through the AVS precompile and through operator messages (registered and unregistered operators, minimum self-delegation 0..1e6 USD and 2^63, 2^64-1; precompile calls naming an operator that did not sign, which must be refused), createTask with response / statistical / challenge periods 0-2 epochs, phase-one and phase-two MsgSubmitTaskResult from every operator (right and wrong stage, task id, signature key, payload, signer, address case incl. upper-case bech32 of the operator, a signature field that is present but empty on the wire) and challenges, while block times end the AVS epoch every 1-4 blocks (including exactly on a boundary and several epochs at once) and stake moves; every accepted operation is judged against the statement's conditions evaluated on the state before it (epoch windows from the stored task parameters and the epochs keeper, BLS verification recomputed, self-delegated value recomputed from the ledger with exact rationals), a refused submission must leave the record unchanged, task ids must be exactly 1..n after the n-th accepted creation, the opted-in snapshot of a created task must be the set of operators opted in at that moment, a challenge that reports success must be recorded, a task that reaches the end of its statistical period without any accepted result must list every operator of its snapshot as a non-signer, and in every BeginBlock that ends an epoch the statistics of each task whose statistical period ends there are compared with the monitor's own record of accepted results (signers, non-signers = opted-in at creation minus signers, per-signer power, total power, threshold determined by the task's own totals); non-trivial = >= 1 accepted phase-two result and >= 1 task statistics checked",
+		Assumptions: []string{"AVS and task 'contracts' are externally owned accounts calling the precompile (the precompile only sees contract.CallerAddress)", "ActualThreshold is only checked to be the value determined by the task's own recorded totals, not against an independent definition of 'threshold'"},
 		Real: []string{"x/avs keeper, msg server and epoch hook", "precompiles/avs", "x/operator opt-in/out and USD values", "prysm blst BLS signatures"},
 		QuickRuns: 400, ThoroughRuns: 8000,
 		GenConfig: func(p *PRNG, tier string) Config {
